@@ -48,6 +48,11 @@ def run(tier, seed):
         raise vlib.ToolError("Delegation.tla violates its invariants:\n" + mc.violation[-2000:])
     gen = model(w, roles, names, ["Emit"], "gen")
     cases = gen.replays
+    if tier == "quick":
+        # depth: three delegated roles over one name (a role without an entry whose delegate has one, next to a
+        # sibling that has one too: the order is depth-first, not by level)
+        g1 = model(w, ["a", "b", "c"], ["n1"], ["Emit"], "gen1")
+        cases = cases + g1.replays
     if tier == "thorough":
         g3 = model(w, ["a", "b"], ["n1", "n2", "n3"], ["Emit"], "gen3")
         cases = cases[seed % 4::4] + g3.replays[seed % 8::8]
@@ -65,7 +70,7 @@ def run(tier, seed):
     cov = {"states": mc.distinct, "transitions": mc.generated, "traces_validated_against_impl": stats["evaluations"],
            "samples": samples, "evaluations": stats["evaluations"], "distinct_nontrivial": len(stats["nontrivial"]),
            "rule": "repositories = every state of Delegation.tla (tree mode): every delegation tree over the roles, every set of names each edge matches, every set of names each role lists; match sets are realised as literal paths, dir/*, one-'?' patterns and path_hash_prefixes in rotation, names partly spelled with '..' / '.' segments; consistent snapshots so that the requested digest shows which role's entry is enforced; non-trivial = a name is listed by several roles or some edge does not match every name",
-           "exhaustive": tier == "quick"}
+           "exhaustive": tier == "quick"}   # quick: all repositories with 2 delegated roles over 2 names and with 3 roles over 1 name
     cov.update(delegclilib.run_into(v, PID, tier, seed))
     return v.finish("model_checking", cov, ["TLC; the pattern language is abstracted to the set of names an edge matches; names and patterns never put '/' under a wildcard (globset lets '*' cross '/', which the property does not fix)",
                                             "trees up to 3 delegated roles (depth 3) and 2-3 names exhaustively; fan-out 3 / 6 names are not reached"])
